@@ -19,6 +19,18 @@ CHECKS = {
  "C03": (E1, "exhaustive sweep of the f32 time axis (+-64 ulp of every phase boundary for 288 configurations; every finite f32 bit pattern for 64 configurations in thorough) against an exact-arithmetic reference time map",
          "The 1-D time axis is enumerated completely (thorough) so boundary and rounding behaviour of the time map is decided for every representable time of the chosen configurations; exact comparison where f32 arithmetic is exact, +-3 ulp jitter window elsewhere.",
          "configurations outside the grid; where 3 ulp(t) >= cycle/4 only boundedness/terminal consistency is asserted (counted in evidence)", "DESIGN.md 3/C03"),
+ "C04": (E2, "explicit-state exploration of all operation histories (advance/set_state) up to depth 6 quick / 7 thorough over 144 (288) animator configurations on the real StateAnimator, plus a deviation-bounded pass to horizon 12/14; relational no-jump oracle (exact)",
+         "current_values must be bit-identical before and after every set_state in every history; same-state set_state must leave time, pause record and is_ended unchanged (read through the verif-hooks snapshot). Exhaustive small-scope exploration is the right level: the defect class is stale state that needs a particular 3-4 step history.",
+         "pool of 12 timeline shapes; dyadic step alphabet; depth bound", "DESIGN.md 3/C04"),
+ "C05": (E2, "explicit-state exploration of all histories up to depth 5 quick / 6 thorough with a reference animator (RefAnimator) stepped alongside and compared after every operation, internal time and pause record through the verif-hooks snapshot",
+         "State, values, time-in-state and the live pause record must equal the reference after every operation of every history; entry values of a blend are observed, so each comparison is local.",
+         "same pool/alphabet as C04; tolerance policy of DESIGN 2.3 for values", "DESIGN.md 3/C05"),
+ "C06": (E2, "exhaustive enumeration of step partitions: every history vs its normal form (advances merged, zero advances dropped) on the real animator, bit-equal oracle",
+         "All histories up to depth 5 quick / 6 thorough over an alphabet with steps 0, 2^-9, 1/4, 1/2, 1, 8 s and state changes: the history and its normal form must end with identical values, state and is_ended; advance(0) is a no-op.",
+         "exactly representable steps (the statement's exact clause); non-representable steps are not compared bit-for-bit", "DESIGN.md 3/C06"),
+ "C07": (E2, "explicit-state exploration of all histories up to depth 5 quick / 6 thorough with an advance alphabet that lands exactly on, 2^-9 before and after every total duration of the pool; reference end status, stickiness, frozen and terminal values",
+         "is_ended must equal the reference (no timeline or time >= max component total, never with an infinite component) after every operation; once ended it stays ended and values stay bit-constant and equal the reference terminal values.",
+         "dyadic totals; pool of 12 shapes", "DESIGN.md 3/C07"),
  "C08": (E1, "bounded exhaustive enumeration with sentinel targets (bit-identity oracle)",
          "C01 space x three prior target contents (NaN-payload sentinels) plus all merged pairs: every field without a keyframe, the never-keyframed #[animate] field, the non-#[animate] field and the whole struct for empty timelines must be bit-identical after update.",
          "struct shapes other than P: see C17 family; animator histories: E2 explorer", "DESIGN.md 3/C08"),
